@@ -5,6 +5,7 @@
 #![feature(allocator_api)]
 use vstd::prelude::*;
 use std::borrow::Cow;
+use std::ops::Deref;
 use std::io::{Read, Seek};
 use std::collections::BTreeMap;
 use vstd::std_specs::iter::IteratorSpec;
@@ -287,6 +288,164 @@ fn parse_formula(rgce: &[u8], sheets: &[String], names: &[(String, String)]) -> 
         match formula_text(rgce@, strs(sheets@), pairs(names@)) { Some(t) => r is Ok && r->Ok_0@ == t, None => r is Err },
 { unimplemented!() }
 
+
+// ---- A-std: Cow<str> as a str (Deref / AsRef / Display)
+// TRUSTED: A-std -- `Cow::deref` / `Cow::as_ref` yield the borrowed or owned content; `cow_ref` names it
+pub uninterp spec fn cow_ref<'a, 'b, B: ?Sized + ToOwned>(c: &'b Cow<'a, B>) -> &'b B;
+pub assume_specification<'a, 'b, B: ?Sized + ToOwned>[ <Cow<'a, B> as Deref>::deref ](c: &'b Cow<'a, B>) -> (r: &'b B)
+    ensures r == cow_ref(c);
+pub assume_specification<'a, 'b, T: ?Sized + ToOwned>[ <Cow<'a, T> as AsRef<T>>::as_ref ](c: &'b Cow<'a, T>) -> (r: &'b T)
+    ensures r == cow_ref(c);
+// TRUSTED: A-std -- the str behind a Cow<str> has the Cow's text; `to_string()` (blanket impl over Display; "Display for Cow<B>
+// delegates to the borrowed or owned value") builds the String with the same text
+#[verifier::external_body]
+pub proof fn axiom_cow_str()
+    ensures
+        forall|c: Cow<'_, str>| (#[trigger] cow_ref::<str>(&c))@ == cow_chars(c),
+        forall|c: Cow<'_, str>, r: String| #[trigger] vstd::string::to_string_from_display_ensures::<Cow<'_, str>>(&c, r) ==> r@ == cow_chars(c),
+{}
+// TRUSTED: A-std -- a str is determined by its characters (needed because Verus compiles a string-literal pattern `Some("worksheets")`
+// into an equality test between `&str` values, while contracts speak of character sequences)
+#[verifier::external_body]
+pub proof fn axiom_str_ext()
+    ensures forall|a: &str, b: &str| #[trigger] a@ == #[trigger] b@ ==> a == b,
+{}
+
+// ---- the relationship table (xl/_rels/workbook.bin.rels): relationship Id (UTF-8 bytes) -> Target
+/// target registered under the Id whose UTF-8 bytes are `key`
+pub open spec fn rel_lookup(m: Map<Vec<u8>, String>, key: Seq<u8>) -> Option<Seq<char>> {
+    if exists|k: Vec<u8>| m.contains_key(k) && k@ == key {
+        Some(m[choose|k: Vec<u8>| m.contains_key(k) && k@ == key]@)
+    } else { None }
+}
+// TRUSTED: the body is the real expression `relationships[relid.as_bytes()]` moved into a function: vstd gives `Index` of BTreeMap no
+// specification (and `IndexSpecImpl` cannot be implemented for a foreign type).  std doc of `impl Index<&Q> for BTreeMap<K, V>`:
+// "Returns a reference to the value corresponding to the supplied key. Panics if the key is not present in the BTreeMap."
+// (keys compare by content: `Borrow<[u8]> for Vec<u8>`)
+#[verifier::external_body]
+fn verif_rel_index<'a>(m: &'a BTreeMap<Vec<u8>, String>, key: &[u8]) -> (r: &'a String)
+    requires rel_lookup(m@, key@) is Some,
+    ensures r@ == rel_lookup(m@, key@)->Some_0,
+{ &m[key] }
+// TRUSTED: the body is the real expression `format!("xl/{}", target)` (Verus accepts `format!` but knows nothing of the result)
+#[verifier::external_body]
+fn verif_xl_path(target: &String) -> (r: String)
+    ensures r@ == "xl/"@ + target@,
+{ format!("xl/{}", target) }
+
+// =====================================================================================================================
+// SPECIFICATION of xl/workbook.bin ([MS-XLSB] 2.1.7.61 Workbook part), first half: up to BrtEndBundleShs
+// =====================================================================================================================
+/// XLWideString at offset off of p: cch u32, then 2*cch bytes of UTF-16LE ([MS-XLSB] 2.5.168)
+pub open spec fn ws_ok(p: Seq<u8>, off: int) -> bool { off >= 0 && p.len() >= off + 4 && p.len() >= off + 4 + 2 * le32(p.subrange(off, off + 4)) }
+pub open spec fn ws_end(p: Seq<u8>, off: int) -> int { off + 4 + 2 * le32(p.subrange(off, off + 4)) }
+pub open spec fn ws_text(p: Seq<u8>, off: int) -> Seq<char> { dec16(p.subrange(off + 4, ws_end(p, off))) }
+
+/// a sheet as the workbook declares it
+pub ghost struct SheetDecl { pub name: Seq<char>, pub path: Seq<char>, pub typ: SheetType, pub visible: SheetVisible }
+/// BrtBundleSh.hsState ([MS-XLSB] 2.4.304 / ST_SheetState): 0 visible, 1 hidden, 2 very hidden
+pub open spec fn hs_visible(hs: int) -> Option<SheetVisible> {
+    if hs == 0 { Some(SheetVisible::Visible) } else if hs == 1 { Some(SheetVisible::Hidden) } else if hs == 2 { Some(SheetVisible::VeryHidden) } else { None }
+}
+/// the kind of a sheet is the kind of its part; the part's folder tells it ([MS-XLSB] 2.1.7: worksheets/, chartsheets/, dialogsheets/,
+/// macrosheets/ hold the Worksheet, Chartsheet, Dialogsheet and Macro Sheet parts)
+pub open spec fn folder_type(path: Seq<char>) -> Option<SheetType> {
+    let segs = split_seq(path, '/');
+    if segs.len() <= 1 { None }
+    else if segs[1] == "worksheets"@ { Some(SheetType::WorkSheet) }
+    else if segs[1] == "chartsheets"@ { Some(SheetType::ChartSheet) }
+    else if segs[1] == "dialogsheets"@ { Some(SheetType::DialogSheet) }
+    else if segs[1] == "macrosheets"@ { Some(SheetType::MacroSheet) }
+    else { None }
+}
+/// BrtBundleSh ([MS-XLSB] 2.4.304): hsState u32 @0, iTabID u32 @4, strRelID XLNullableWideString @8, strName XLWideString after it.
+/// Layout complete, the relationship id not NULL and present in the relationship part (a sheet without part, a dangling
+/// relationship: outside the property's domain -- C06 only)
+pub open spec fn bundle_wf(p: Seq<u8>, rels: Map<Vec<u8>, String>) -> bool {
+    p.len() >= 12 && le32(p.subrange(8, 12)) != 0xFFFF_FFFF && ws_ok(p, 8) && ws_ok(p, ws_end(p, 8))
+    && rel_lookup(rels, vstd::utf8::encode_utf8(ws_text(p, 8))) is Some
+}
+/// the sheet a well-formed BrtBundleSh declares; None: unknown hsState or part folder (the reader must reject)
+pub open spec fn bundle_decl(p: Seq<u8>, rels: Map<Vec<u8>, String>) -> Option<SheetDecl> {
+    match rel_lookup(rels, vstd::utf8::encode_utf8(ws_text(p, 8))) {
+        None => None,
+        Some(target) => {
+            let path = "xl/"@ + target;
+            match (hs_visible(le32(p.subrange(0, 4))), folder_type(path)) {
+                (Some(v), Some(t)) => Some(SheetDecl { name: ws_text(p, ws_end(p, 8)), path, typ: t, visible: v }),
+                _ => None,
+            }
+        }
+    }
+}
+pub ghost struct WbSt { pub is_1904: bool, pub sheets: Seq<SheetDecl> }
+pub enum Wb1 {
+    /// BrtEndBundleShs reached: date system, sheets in record order, stream after that record
+    Done { st: WbSt, rest: Seq<u8> },
+    /// the stream ends (or a record is truncated) first
+    Truncated,
+    /// a BrtWbProp / BrtBundleSh whose payload is shorter than its layout (or NULL relationship id): outside the property's domain
+    Malformed,
+    /// a BrtBundleSh the reader must reject
+    Rejected,
+}
+/// the record stream s of workbook.bin up to BrtEndBundleShs, written from the format: BrtWbProp 0x0099 sets the date system (bit 0 of
+/// its flags = f1904), each BrtBundleSh 0x009C declares one sheet, BrtEndBundleShs 0x0090 ends the list, every other record kind is
+/// passed over whole ([MS-XLSB] 2.1.4: a reader skips the size and payload of records it does not interpret)
+#[verifier::opaque]
+pub open spec fn wb1(s: Seq<u8>, st: WbSt, rels: Map<Vec<u8>, String>) -> Wb1 decreases s.len() {
+    if !rec_ok(s) || rec_rest(s).len() >= s.len() { Wb1::Truncated }   // (second disjunct never true: lemma_rec_total)
+    else if rec_typ(s) == 0x0099 {
+        if rec_payload(s).len() < 1 { Wb1::Malformed }
+        else { wb1(rec_rest(s), WbSt { is_1904: rec_payload(s)[0] % 2 == 1, ..st }, rels) }
+    }
+    else if rec_typ(s) == 0x009C {
+        if !bundle_wf(rec_payload(s), rels) { Wb1::Malformed }
+        else {
+            match bundle_decl(rec_payload(s), rels) {
+                None => Wb1::Rejected,
+                Some(d) => wb1(rec_rest(s), WbSt { sheets: st.sheets.push(d), ..st }, rels),
+            }
+        }
+    }
+    else if rec_typ(s) == 0x0090 { Wb1::Done { st, rest: rec_rest(s) } }
+    else { wb1(rec_rest(s), st, rels) }
+}
+/// one unfolding of wb1
+proof fn lemma_wb1_step(s: Seq<u8>, st: WbSt, rels: Map<Vec<u8>, String>)
+    ensures wb1(s, st, rels) == (
+        if !rec_ok(s) || rec_rest(s).len() >= s.len() { Wb1::Truncated }
+        else if rec_typ(s) == 0x0099 {
+            if rec_payload(s).len() < 1 { Wb1::Malformed }
+            else { wb1(rec_rest(s), WbSt { is_1904: rec_payload(s)[0] % 2 == 1, ..st }, rels) }
+        }
+        else if rec_typ(s) == 0x009C {
+            if !bundle_wf(rec_payload(s), rels) { Wb1::Malformed }
+            else {
+                match bundle_decl(rec_payload(s), rels) {
+                    None => Wb1::Rejected,
+                    Some(d) => wb1(rec_rest(s), WbSt { sheets: st.sheets.push(d), ..st }, rels),
+                }
+            }
+        }
+        else if rec_typ(s) == 0x0090 { Wb1::Done { st, rest: rec_rest(s) } }
+        else { wb1(rec_rest(s), st, rels) }),
+{
+    reveal(wb1);
+}
+/// the reader's two sheet lists show the declared sheets ds, in order: name, kind, visibility (metadata) and name, part path
+pub open spec fn sheets_ok(ms: Seq<Sheet>, ss: Seq<(String, String)>, ds: Seq<SheetDecl>) -> bool {
+    ms.len() == ds.len() && ss.len() == ds.len()
+    && forall|i: int| 0 <= i < ds.len() ==> (#[trigger] ms[i]).name@ == ds[i].name && ms[i].typ == ds[i].typ && ms[i].visible == ds[i].visible
+        && (#[trigger] ss[i]).0@ == ds[i].name && ss[i].1@ == ds[i].path
+}
+pub open spec fn wb_path() -> Seq<char> { "xl/workbook.bin"@ }
+proof fn lemma_bit0(b: u8)
+    ensures ((b & 0x1) != 0) == (b % 2 == 1),
+{
+    assert(((b & 0x1) != 0) == (b % 2 == 1)) by (bit_vector);
+}
+
 pub open spec fn strs(v: Seq<String>) -> Seq<Seq<char>> { v.map_values(|s: String| s@) }
 
 //@@ impl src/xlsb/mod.rs Xlsb
@@ -298,13 +457,150 @@ pub open spec fn strs(v: Seq<String>) -> Seq<Seq<char>> { v.map_values(|s: Strin
 //@@ fn src/xlsb/mod.rs Xlsb::read_workbook props=C16,C03,C14 entry ret=r
 //@@ sig
     ensures
-        true,
+        //# C16.workbook_part_missing
+        part_bytes(old(self).zip, wb_path()) is None ==> r is Err,
+        //# C16.wbprop_1904
+        ({ let w = wb1(part_bytes(old(self).zip, wb_path())->Some_0, WbSt { is_1904: old(self).is_1904, sheets: Seq::empty() }, relationships@);
+           part_bytes(old(self).zip, wb_path()) is Some && w is Done && r is Ok ==> final(self).is_1904 == w->st.is_1904 }),
+        //# C16.bundle_sheets_in_order
+        ({ let w = wb1(part_bytes(old(self).zip, wb_path())->Some_0, WbSt { is_1904: old(self).is_1904, sheets: Seq::empty() }, relationships@);
+           part_bytes(old(self).zip, wb_path()) is Some && w is Done && r is Ok ==>
+             sheets_ok(final(self).metadata.sheets@.skip(old(self).metadata.sheets@.len() as int),
+                       final(self).sheets@.skip(old(self).sheets@.len() as int), w->st.sheets) }),
+        //# C16.sheets_frame
+        r is Ok ==> final(self).metadata.sheets@.len() >= old(self).metadata.sheets@.len()
+            && final(self).metadata.sheets@.take(old(self).metadata.sheets@.len() as int) == old(self).metadata.sheets@
+            && final(self).sheets@.len() >= old(self).sheets@.len()
+            && final(self).sheets@.take(old(self).sheets@.len() as int) == old(self).sheets@,
+        //# C16.sheet_list_truncated_is_error
+        ({ let w = wb1(part_bytes(old(self).zip, wb_path())->Some_0, WbSt { is_1904: old(self).is_1904, sheets: Seq::empty() }, relationships@);
+           part_bytes(old(self).zip, wb_path()) is Some && (w is Truncated || w is Rejected) ==> r is Err }),
+        //# C07.workbook_read_frame
+        final(self).strings@ == old(self).strings@ && final(self).formats@ == old(self).formats@,
+//@@ after /let mut buf = Vec::with_capacity\(1024\);/
+        let ghost s0 = iter.rem();
+        let ghost rels = relationships@;
+        let ghost st0 = WbSt { is_1904: self.is_1904, sheets: Seq::empty() };
+        let ghost mut st = st0;
+        let ghost mut cur = s0;
+        let ghost m0 = self.metadata.sheets@.len() as int;
+        let ghost n0 = self.sheets@.len() as int;
+        proof {
+            assert(self.metadata.sheets@.skip(m0) =~= Seq::<Sheet>::empty());
+            assert(self.sheets@.skip(n0) =~= Seq::<(String, String)>::empty());
+            assert(self.metadata.sheets@.take(m0) =~= self.metadata.sheets@);
+            assert(self.sheets@.take(n0) =~= self.sheets@);
+        }
 //@@ loop 0
+            invariant_except_break
+                // the reader is at a record boundary at the top of every iteration: `cur` only ever advances by whole records
+                //# C03.unknown_records_skipped_whole
+                cur == iter.rem(),
+                buf@.len() == 0,
+                wb1(s0, st0, rels) is Malformed || wb1(s0, st0, rels) == wb1(cur, st, rels),
+            invariant
+                self.is_1904 == st.is_1904,
+                sheets_ok(self.metadata.sheets@.skip(m0), self.sheets@.skip(n0), st.sheets),
+                self.metadata.sheets@.len() >= m0, self.metadata.sheets@.take(m0) == old(self).metadata.sheets@,
+                self.sheets@.len() >= n0, self.sheets@.take(n0) == old(self).sheets@,
+                m0 == old(self).metadata.sheets@.len(), n0 == old(self).sheets@.len(),
+                self.strings@ == old(self).strings@, self.formats@ == old(self).formats@,
+                self.extern_sheets@ == old(self).extern_sheets@,
+                rels == relationships@,
+            ensures
+                wb1(s0, st0, rels) is Malformed || wb1(s0, st0, rels) is Truncated || wb1(s0, st0, rels) == (Wb1::Done { st, rest: cur }),
+                cur == iter.rem(),
             decreases iter.rem().len(),
+//@@ before /match iter\.read_type\(\)\? \{/
+            let ghost h = cur;
+            proof { lemma_wb1_step(h, st, rels); lemma_rec_total(h); }
+//@@ after /let _ = iter\.fill_buffer\(&mut buf\)\?;/
+                    proof {
+                        lemma_rec_read(h);
+                        assert(buf@ =~= rec_payload(h));
+                        cur = rec_rest(h);
+                    }
+//@@ after /self\.is_1904 = [^;]*;/
+                    proof {
+                        lemma_bit0(buf@[0]);
+                        // BrtWbProp: f1904 is bit 0 of the first flag byte
+                        //# C16.wbprop_f1904_bit
+                        assert(self.is_1904 == (rec_payload(h)[0] % 2 == 1));
+                        st = WbSt { is_1904: rec_payload(h)[0] % 2 == 1, ..st };
+                    }
+//@@ after /let len = iter\.fill_buffer\(&mut buf\)\?;/#0of2
+                    let ghost pl = rec_payload(h);
+                    proof {
+                        lemma_rec_read(h);
+                        assert(buf@ =~= pl);
+                        cur = rec_rest(h);
+                    }
+//@@ before /let name = wide_str\(&buf\[12 \+ rel_len/
+                        proof {
+                            axiom_cow_str(); axiom_cow_owned_str_all(); axiom_str_ext();
+                        }
+//@@ before /self\.metadata\.sheets\.push\(Sheet/
+                        let ghost ms_before = self.metadata.sheets@;
+                        let ghost ss_before = self.sheets@;
+                        proof {
+                            if pl.len() >= 12 {
+                                assert(pl.subrange(8, len as int).subrange(0, 4) =~= pl.subrange(8, 12));
+                                assert(buf@.subrange(0, 4) =~= pl.subrange(0, 4));
+                            }
+                            if bundle_wf(pl, rels) {
+                                let e = ws_end(pl, 8);
+                                assert(e == 12 + rel_len);
+                                assert(buf@.subrange(12, 12 + rel_len as int) =~= pl.subrange(12, e));
+                                assert(pl.subrange(e, len as int).subrange(0, 4) =~= pl.subrange(e, e + 4));
+                                assert(pl.subrange(e, len as int).subrange(4, 4 + 2 * le32(pl.subrange(e, e + 4))) =~= pl.subrange(e + 4, ws_end(pl, e)));
+                                // one sheet per BrtBundleSh, with the declared name, visibility, part path and kind
+                                //# C16.bundle_sheet_name
+                                assert(cow_chars(name) == ws_text(pl, e));
+                                //# C16.bundle_sheet_visibility
+                                assert(hs_visible(le32(pl.subrange(0, 4))) == Some(visible));
+                                //# C16.bundle_sheet_path
+                                assert(path@ == "xl/"@ + rel_lookup(rels, vstd::utf8::encode_utf8(ws_text(pl, 8)))->Some_0);
+                                //# C16.bundle_sheet_kind
+                                assert(folder_type(path@) == Some(typ));
+                            }
+                        }
+//@@ after /self\.sheets\.push\(\(name\.into_owned\(\), path\)\);/
+                        proof {
+                            if bundle_wf(pl, rels) {
+                                let d = bundle_decl(pl, rels)->Some_0;
+                                assert(bundle_decl(pl, rels) is Some);
+                                let ds = st.sheets.push(d);
+                                assert(self.metadata.sheets@.skip(m0) =~= ms_before.skip(m0).push(self.metadata.sheets@.last()));
+                                assert(self.sheets@.skip(n0) =~= ss_before.skip(n0).push(self.sheets@.last()));
+                                assert(self.metadata.sheets@.take(m0) =~= ms_before.take(m0));
+                                assert(self.sheets@.take(n0) =~= ss_before.take(n0));
+                                //# C16.bundle_sheet_appended_in_order
+                                assert(sheets_ok(self.metadata.sheets@.skip(m0), self.sheets@.skip(n0), ds));
+                                st = WbSt { sheets: ds, ..st };
+                            } else {
+                                assert(self.metadata.sheets@.take(m0) =~= ms_before.take(m0));
+                                assert(self.sheets@.take(n0) =~= ss_before.take(n0));
+                                assert(self.metadata.sheets@.skip(m0) =~= ms_before.skip(m0).push(self.metadata.sheets@.last()));
+                                assert(self.sheets@.skip(n0) =~= ss_before.skip(n0).push(self.sheets@.last()));
+                            }
+                        }
+//@@ before /break,/
+{ proof {
+                    // BrtEndBundleShs is a record like any other: its size field (and payload) belong to it
+                    cur = rec_rest(h);
+                }
+                //# C03.end_bundle_record_skipped_whole
+                assert(iter.rem() == rec_rest(h));
+//@@ after /=> break/
+ }
 //@@ loop 1
             decreases iter.rem().len(),
 //@@ replace /path\.split\('.'\)\.nth\(1\)/ no assume_specification for provided trait methods (Iterator::nth of str::Split): the expression is moved into a trusted wrapper whose body is the same expression
 verif_split_nth(&path, '/', 1)
+//@@ replace /format!\("xl.\{\}", / Verus knows nothing of the String `format!` builds: the expression is moved into a trusted wrapper whose body is the same expression
+verif_xl_path(&
+//@@ replace /relationships\[([^\]]*)\]/ vstd has no specification for `Index` of BTreeMap: the expression is moved into a trusted wrapper whose body is the same expression
+verif_rel_index(relationships, \g<1>)
 //@@ replace /&buf\[0\] &/ Verus has no `BitAnd<u8> for &u8` (std: `&a & b` is `*a & b`); same index, same operand
 buf[0] &
 //@@ end
